@@ -29,6 +29,10 @@ from . import e2_formula as F
 from .core import AnchorError, Unsupported
 from .e2_eval import Unknown, is_unknown, const_from_node
 
+OPERATOR_FUNCS = {"operator.add": ast.Add, "operator.sub": ast.Sub, "operator.mul": ast.Mult, "operator.truediv": ast.Div,
+                  "operator.floordiv": ast.FloorDiv, "operator.mod": ast.Mod, "operator.pow": ast.Pow, "operator.matmul": ast.MatMult,
+                  "operator.iadd": ast.Add, "operator.imul": ast.Mult, "operator.and_": ast.BitAnd, "operator.or_": ast.BitOr,
+                  "operator.lshift": ast.LShift, "operator.rshift": ast.RShift, "operator.neg": None, "operator.pos": None}
 MAX_DEPTH = 24
 MAX_UNROLL = 400
 
@@ -392,6 +396,235 @@ def pow_const_base(base, expo):
     return out
 
 
+# ------------------------------------------------------------------------------------------------------------------ library names
+# A reference to a library object is named by *what it is* (the dotted path the import statements resolve it to), written with the
+# abbreviations below, whatever alias the module binds it to:  `import numpy`, `import numpy as xp`, `from numpy import dot` all give
+# np / np.dot;  `mf = spla._matfuncs` (also under try/except) gives mf.
+STD_NAMES = (("scipy.sparse.linalg._matfuncs", "mf"), ("scipy.sparse.linalg.matfuncs", "mf"), ("scipy.sparse.linalg", "spla"),
+             ("scipy.sparse.isspmatrix", "isspmatrix"), ("scipy.sparse", "scipy.sparse"), ("scipy.linalg", "la"), ("scipy.signal", "signal"),
+             ("numpy", "np"), ("pyyeti.expmint", "expmint"), ("functools", "functools"), ("operator", "operator"), ("math", "math"),
+             ("itertools", "itertools"), ("warnings", "warnings"))
+
+
+def canon_dotted(full):
+    """canonical name of a dotted library path, or None when it is under none of the known roots"""
+    for pre, short in STD_NAMES:
+        if full == pre or full.startswith(pre + "."):
+            return short + full[len(pre):]
+    return None
+
+
+def extend_ref(name, attr):
+    """canonical name of <reference>.attr"""
+    for pre, short in STD_NAMES:
+        if name == short or name.startswith(short + "."):
+            full = pre + name[len(short):] + "." + attr
+            return canon_dotted(full) or (name + "." + attr)
+    return name + "." + attr
+
+
+def _import_full(st, a, rel):
+    """dotted path an `import` / `from ... import` alias resolves to"""
+    if isinstance(st, ast.Import):
+        return a.name if a.asname else a.name.split(".")[0]
+    base = st.module or ""
+    if st.level:
+        pkg = rel.replace("\\", "/").split("/")[:-1]
+        pkg = pkg[:len(pkg) - (st.level - 1)] if st.level > 1 else pkg
+        base = ".".join(pkg + ([base] if base else []))
+    return f"{base}.{a.name}".lstrip(".")
+
+
+# ------------------------------------------------------------------------------------------------------------------ selections
+# An index is decided by *which rows / columns it selects*, not by how its bounds are spelled.  On an axis of known length L a unit-step
+# slice is the interval sel(start, stop) with both bounds resolved the way numpy resolves them (missing lower bound 0, missing upper bound
+# L, a negative bound counted from the end, a bound beyond the end clipped):  `:n`, `0:n`, `slice(None, n)`, `slice(0, n, 1)` are one
+# selection, and so are `n:`, `n:n + i`, `-i:` on an axis of length n + i.  An index with fewer entries than the array has axes (or with an
+# Ellipsis) is completed with whole axes.  A subscript of a view is the subscript of the array the view was taken from.
+def sign_of(v):
+    """sign of a value whose symbols all stand for positive integers (array dimensions): 1, 0, -1; None when its terms have mixed signs"""
+    if not isinstance(v, F.Rat) or is_unknown(v):
+        return None
+    try:
+        if not v.d.is_const():
+            return None
+        dc = v.d.const_value()
+        pos = neg = False
+        for m, c in v.n.t.items():
+            if any(e < 0 for _a, e in m) or any(a == F.I_ATOM for a, _e in m):
+                return None
+            if c / dc > 0:
+                pos = True
+            elif c / dc < 0:
+                neg = True
+    except Exception:  # noqa
+        return None
+    if pos and neg:
+        return None
+    return 1 if pos else (-1 if neg else 0)
+
+
+def _named(v, name):
+    return sym_name(v) == name
+
+
+def _sel_parts(s):
+    p = fn_parts(s)
+    if p is not None and p[0] == "sel" and len(p[1]) == 2:
+        return p[1][0], p[1][1]
+    return None
+
+
+def _bound(b, L, default):
+    if _named(b, "None"):
+        return default
+    sg = sign_of(b)
+    if sg is None:
+        return None
+    if sg < 0:
+        if L is None:
+            return None
+        b = b + L
+        sg = sign_of(b)
+        if sg is None:
+            return None
+        return F.const(0) if sg < 0 else b
+    if L is not None and sign_of(b - L) == 1:
+        return L
+    return b
+
+
+def _canon_axis(s, L):
+    """one entry of an index on an axis of length L (None: not known)"""
+    p = fn_parts(s)
+    if p is not None and p[0] == "slice" and len(p[1]) == 3:
+        lo, hi, st = p[1]
+        if not (_named(st, "None") or (is_const(st) and cval(st) == 1)):
+            return s                                    # strided: not an interval
+        lo = _bound(lo, L, F.const(0))
+        hi = _bound(hi, L, L if L is not None else F.sym("@end"))
+        if lo is None or hi is None:
+            return s
+        return F.fn("sel", lo, hi)
+    if p is None and isinstance(s, F.Rat) and L is not None and sign_of(s) == -1:
+        return s + L
+    return s
+
+
+def _index_items(ix):
+    p = fn_parts(ix)
+    if p is not None and p[0] == "tuple":
+        return list(p[1]), True
+    return [ix], False
+
+
+def canon_index(ix, shape):
+    """the index with every unit-step slice as an interval; with a known shape (tuple of lengths) always one entry per axis"""
+    if not isinstance(ix, F.Rat) or is_unknown(ix):
+        return ix
+    items, was_tuple = _index_items(ix)
+    if any(not isinstance(s, F.Rat) for s in items):
+        return ix
+    if shape is None:
+        out = [_canon_axis(s, None) for s in items]
+        return F.fn("tuple", *out) if was_tuple else out[0]
+    nd = len(shape)
+    n_ell = sum(1 for s in items if _named(s, "Ellipsis"))
+    n_real = len(items) - n_ell
+    if n_ell > 1 or n_real > nd or any(_named(s, "None") for s in items):
+        return ix                                       # np.newaxis, too many indices: not lowered
+    full = F.fn("slice", F.sym("None"), F.sym("None"), F.sym("None"))
+    flat = []
+    for s in items:
+        if _named(s, "Ellipsis"):
+            flat.extend([full] * (nd - n_real))
+        else:
+            flat.append(s)
+    flat.extend([full] * (nd - len(flat)))
+    return F.fn("tuple", *[_canon_axis(s, shape[k]) for k, s in enumerate(flat)])
+
+
+def index_is_canonical(ix):
+    """every entry is an interval or a single position (nothing strided, no bound the sign of which is open, no new axis)"""
+    items, _t = _index_items(ix)
+    for s in items:
+        if not isinstance(s, F.Rat):
+            return False
+        if _sel_parts(s) is not None:
+            continue
+        p = fn_parts(s)
+        if p is not None and p[0] in ("slice", "tuple"):
+            return False
+        if _named(s, "None") or _named(s, "Ellipsis"):
+            return False
+    return True
+
+
+def view_shape(ix):
+    """shape of X[ix] for a canonical index with one entry per axis: an interval keeps its axis, a position drops it"""
+    items, _t = _index_items(ix)
+    out = []
+    for s in items:
+        sp = _sel_parts(s)
+        if sp is not None:
+            out.append(sp[1] - sp[0])
+    return tuple(out)
+
+
+def compose_index(ix1, ix2):
+    """index into X of X[ix1][ix2]: ix1 canonical with one entry per axis of X, ix2 canonical with one entry per axis of the view"""
+    items1, _t = _index_items(ix1)
+    items2, _t = _index_items(ix2)
+    out = []
+    k = 0
+    for s in items1:
+        sp = _sel_parts(s)
+        if sp is None:
+            out.append(s)
+            continue
+        if k >= len(items2):
+            return None
+        t = items2[k]
+        k += 1
+        tp = _sel_parts(t)
+        if tp is not None:
+            out.append(F.fn("sel", sp[0] + tp[0], sp[0] + tp[1]))
+        else:
+            out.append(sp[0] + t)
+    if k != len(items2):
+        return None
+    return F.fn("tuple", *out)
+
+
+def noncanonical_indices(v):
+    """the indices occurring in a value (or a tuple of values) that could not be resolved to selections"""
+    out = []
+    for _nm, args in atoms_named(v, "idx"):
+        if len(args) == 2 and isinstance(args[1], F.Rat) and not index_is_canonical(args[1]):
+            out.append(args[1])
+    return out
+
+
+def intervals_disjoint(a, b):
+    """True when the two canonical indices select no common element for certain (an axis on which one interval ends where or before the
+    other begins); False when one axis cannot separate them"""
+    ia, _t = _index_items(a)
+    ib, _t = _index_items(b)
+    if len(ia) != len(ib):
+        return False
+    for s, t in zip(ia, ib):
+        sp, tp = _sel_parts(s), _sel_parts(t)
+        if sp is None:
+            sp = (s, s + 1) if fn_parts(s) is None or fn_parts(s)[0] not in ("slice", "tuple") else None
+        if tp is None:
+            tp = (t, t + 1) if fn_parts(t) is None or fn_parts(t)[0] not in ("slice", "tuple") else None
+        if sp is None or tp is None:
+            continue
+        if sign_of(tp[0] - sp[1]) in (0, 1) or sign_of(sp[0] - tp[1]) in (0, 1):
+            return True
+    return False
+
+
 def _assigned_names(stmts):
     out = []
     for st in stmts:
@@ -459,6 +692,7 @@ class Interp:
         self.cells = []                  # (base object snapshot, index value, stored value, node, aug)
         self.inplace = []                # (node, text) in-place updates of objects reachable from a protected root
         self.protected = list(protect or [])
+        self.shape_of = None             # shape_of(value) -> tuple of axis lengths | None : the rule's knowledge of array shapes
         self.depth = 0
         self.seq = 0
         self._globals = {}
@@ -596,6 +830,39 @@ class Interp:
     def calls_named(self, *names):
         return [c for c in self.calls if c.name in names]
 
+    # ------------------------------------------------------------------ array shapes, selections
+    def shape(self, v):
+        """shape of an array value as a tuple of lengths, or None: a view X[ix] with a resolved index has the shape the index selects,
+        anything else has the shape the rule's `shape_of` knows"""
+        if not isinstance(v, F.Rat) or is_unknown(v):
+            return None
+        p = fn_parts(v)
+        if p is not None and p[0] == "idx" and len(p[1]) == 2 and isinstance(p[1][1], F.Rat):
+            root = self.shape(p[1][0]) if isinstance(p[1][0], F.Rat) else None
+            if root is not None and index_is_canonical(p[1][1]) and len(_index_items(p[1][1])[0]) == len(root):
+                return view_shape(p[1][1])
+            return None
+        if self.shape_of is None:
+            return None
+        sh = self.shape_of(v)
+        if isinstance(sh, tuple) and all(isinstance(x, F.Rat) and not is_unknown(x) for x in sh):
+            return sh
+        return None
+
+    def subscript(self, base, ix):
+        """(array, index) of base[ix] with the index resolved to the rows / columns it selects; a subscript of a view becomes a
+        subscript of the array viewed"""
+        if not isinstance(ix, F.Rat) or is_unknown(ix):
+            return base, ix
+        ixc = canon_index(ix, self.shape(base))
+        p = fn_parts(base)
+        if p is not None and p[0] == "idx" and len(p[1]) == 2 and isinstance(p[1][0], F.Rat) and isinstance(p[1][1], F.Rat) \
+                and self.shape(base) is not None and index_is_canonical(ixc):
+            both = compose_index(p[1][1], ixc)
+            if both is not None:
+                return p[1][0], both
+        return base, ixc
+
     # ------------------------------------------------------------------ truth
     def truth(self, v, node=None):
         if v is None or v is False:
@@ -678,7 +945,48 @@ class Interp:
         known = self._known_names(mod)
         if known is not None and name not in known:
             return Crash(f"NameError: name '{name}' is not defined")
-        return Ref(name)
+        return Ref(self._aliases(mod).get(name, name))
+
+    def _aliases(self, mod):
+        """module-level name -> canonical library name, from the import statements and from aliases of imported objects bound at module
+        level (`mf = spla._matfuncs`), wherever they stand (try / if)"""
+        k = ("aliases", mod.rel)
+        if k in self._names:
+            return self._names[k]
+        full = {}
+
+        def dotted(e):
+            if isinstance(e, ast.Name):
+                return full.get(e.id)
+            if isinstance(e, ast.Attribute):
+                b = dotted(e.value)
+                return None if b is None else b + "." + e.attr
+            return None
+
+        def walk(stmts):
+            for st in stmts:
+                if isinstance(st, (ast.Import, ast.ImportFrom)):
+                    for a in st.names:
+                        if a.name != "*":
+                            full[a.asname or (a.name.split(".")[0] if isinstance(st, ast.Import) else a.name)] = _import_full(st, a, mod.rel)
+                elif isinstance(st, ast.Assign) and len(st.targets) == 1 and isinstance(st.targets[0], ast.Name):
+                    d = dotted(st.value)
+                    if d is not None:
+                        full[st.targets[0].id] = d
+                elif isinstance(st, (ast.If, ast.Try, ast.With)):
+                    walk(st.body)
+                    walk(getattr(st, "orelse", []) or [])
+                    for h_ in getattr(st, "handlers", []) or []:
+                        walk(h_.body)
+                    walk(getattr(st, "finalbody", []) or [])
+        walk(mod.tree.body)
+        out = {}
+        for nm, f in full.items():
+            c = canon_dotted(f)
+            if c is not None:
+                out[nm] = c
+        self._names[k] = out
+        return out
 
     def _known_names(self, mod):
         """names a module-level lookup can find: imports, module-level bindings (also under try / if / with / for), builtins;
@@ -740,7 +1048,7 @@ class Interp:
         if base is None:
             return Crash(f"AttributeError: 'NoneType' object has no attribute '{name}'")
         if isinstance(base, Ref):
-            return Ref(base.name + "." + name)
+            return Ref(extend_ref(base.name, name))
         if isinstance(base, Obj):
             if name in base.attrs:
                 return base.attrs[name]
@@ -1139,7 +1447,13 @@ class Interp:
             ix = self._index_value(node.slice, fr)
             if is_unknown(ix):
                 return ix
-            return F.fn("idx", base, ix)
+            root, ix = self.subscript(base, ix)
+            return F.fn("idx", root, ix)
+        if isinstance(base, Ref) and base.name in ("np.s_", "np.index_exp", "numpy.s_", "numpy.index_exp"):
+            ix = self._index_value(node.slice, fr)          # np.s_[a:b, c:d] is the index itself
+            if base.name.endswith("index_exp") and not is_unknown(ix) and not _index_items(ix)[1]:
+                ix = F.fn("tuple", ix)
+            return ix
         return Unknown(f"subscript of {type(base).__name__}")
 
     def _comprehension(self, elt, generators, fr, out):
@@ -1230,10 +1544,15 @@ class Interp:
                 return v
         # callee
         f = node.func
+        if isinstance(f, ast.Attribute) and isinstance(f.value, ast.Call) and isinstance(f.value.func, ast.Name) and f.value.func.id == "super" \
+                and not f.value.keywords and len(f.value.args) in (0, 2) and not any("super" in x.vars for x in self._frames(fr)):
+            r = self._super_call(f, pos, kw, node, fr)
+            if r is not NotImplemented:
+                return r
         if isinstance(f, ast.Attribute):
             base = self.ev(f.value, fr)
             if isinstance(base, Ref):
-                callee = Ref(base.name + "." + f.attr)
+                callee = Ref(extend_ref(base.name, f.attr))
             elif isinstance(base, Obj):
                 callee = self._getattr(base, f.attr, node)
             elif isinstance(base, ClassV):
@@ -1245,6 +1564,41 @@ class Interp:
         else:
             callee = self.ev(f, fr)
         return self.apply(callee, pos, kw, node, fr)
+
+    @staticmethod
+    def _frames(fr):
+        while fr is not None:
+            yield fr
+            fr = fr.parent
+
+    def _super_call(self, f, pos, kw, node, fr):
+        """super().m(args) / super(C, self).m(args) inside a method: the same call as Base.m(self, args), Base being the first base class
+        (of the module, searched upwards, or of a library) that can have the attribute"""
+        meth = next((x for x in self._frames(fr) if x.func is not None and x.func.cls is not None and x.func.self_obj is not None), None)
+        if meth is None:
+            return NotImplemented
+        cls, obj = meth.func.cls, meth.func.self_obj
+        if f.value.args:
+            c0 = self.ev(f.value.args[0], fr)
+            o0 = self.ev(f.value.args[1], fr)
+            if not isinstance(c0, ClassV) or o0 is not obj:
+                return NotImplemented
+            cls = c0
+        seen = 0
+        while cls is not None and seen < 8:
+            seen += 1
+            nxt = None
+            for b in cls.node.bases:
+                bv = self.ev(b, Frame(None, None, cls.mod))
+                if isinstance(bv, ClassV):
+                    if f.attr in bv.methods:
+                        self.src.funcs_consulted.add(f"{bv.mod.rel}:{bv.name}.{f.attr}")
+                        return self.apply(FuncV(bv.methods[f.attr], bv.mod, None, obj, bv, f"{bv.name}.{f.attr}"), pos, kw, node, fr)
+                    nxt = nxt or bv
+                elif isinstance(bv, Ref):
+                    return self.apply(Ref(extend_ref(bv.name, f.attr)), [obj] + list(pos), kw, node, fr)
+            cls = nxt
+        return NotImplemented
 
     def apply(self, callee, pos, kw, node, fr=None):
         if is_unknown(callee):
@@ -1476,6 +1830,35 @@ class Interp:
             if n > 1:
                 return pos[1]
             raise _Raise(node)
+        if name in OPERATOR_FUNCS and not kw and n == (1 if name in ("operator.neg", "operator.pos") else 2):
+            if n == 1:
+                v = to_rat(pos[0])
+                return v if is_unknown(v) or name == "operator.pos" else -v
+            return self.binop(OPERATOR_FUNCS[name](), pos[0], pos[1], node)
+        if name == "operator.getitem" and n == 2 and not kw and isinstance(pos[0], tuple) and is_const(pos[1]) and cval(pos[1]).denominator == 1:
+            try:
+                return pos[0][int(cval(pos[1]))]
+            except IndexError:
+                return Crash(f"IndexError: operator.getitem on a sequence of length {len(pos[0])}")
+        if name == "functools.partial" and n >= 1:
+            f0, pre, prekw = pos[0], list(pos[1:]), dict(kw)
+            if isinstance(f0, (FuncV, ClassV, Ref, Native)):
+                return Native("partial", lambda it_, p_, k_, nd_: it_.apply(f0, pre + list(p_), {**prekw, **k_}, nd_, fr))
+            return Unknown("functools.partial of a value that is not a function")
+        if name == "functools.reduce" and n in (2, 3) and not kw:
+            seq = self._iterable(pos[1])
+            if seq is None or not isinstance(pos[0], (FuncV, ClassV, Ref, Native)):
+                return Unknown("functools.reduce over an unknown sequence")
+            if n == 2 and not seq:
+                return Crash("TypeError: reduce() of empty iterable with no initial value")
+            acc = pos[2] if n == 3 else seq[0]
+            for x in (seq if n == 3 else seq[1:]):
+                acc = self.apply(pos[0], [acc, x], {}, node, fr)
+                if is_unknown(acc):
+                    return acc
+            return acc
+        if name == "divmod" and n == 2 and not kw:
+            return (self.binop(ast.FloorDiv(), pos[0], pos[1], node), self.binop(ast.Mod(), pos[0], pos[1], node))
         if name == "slice" and 1 <= n <= 3 and not kw:
             parts = [None, None, None]
             if n == 1:
@@ -1599,12 +1982,14 @@ class Interp:
     def _s_Import(self, st, fr):
         for a in st.names:
             nm = a.asname or a.name.split(".")[0]
-            fr.vars[nm] = Ref(a.name if a.asname else a.name.split(".")[0])
+            full = _import_full(st, a, (fr.mod or self.mod).rel)
+            fr.vars[nm] = Ref(canon_dotted(full) or full)
 
     def _s_ImportFrom(self, st, fr):
         for a in st.names:
             if a.name != "*":
-                fr.vars[a.asname or a.name] = Ref(f"{st.module or ''}.{a.name}".lstrip("."))
+                full = _import_full(st, a, (fr.mod or self.mod).rel)
+                fr.vars[a.asname or a.name] = Ref(canon_dotted(full) or full)
 
     def _s_Expr(self, st, fr):
         if isinstance(st.value, ast.Constant):
@@ -1691,6 +2076,8 @@ class Interp:
                     self._poison(t.value, fr, new if is_unknown(new) else Unknown("subscript store"))
                 return
             ix = self._index_value(t.slice, fr)
+            if not is_unknown(ix):
+                base, ix = self.subscript(base, ix)         # a store through a view is a store into the array viewed
             if aug is not None and not is_unknown(ix):
                 v = self.binop(aug, F.fn("idx", base, ix), v, st)
             self.cells.append((clone(base), ix, clone(v), st, aug is not None))
